@@ -120,13 +120,20 @@ func stringToDFA(value string) *auto.DFA {
 	return d
 }
 
-func regexToDFA(regex string) (*auto.DFA, error) {
+func regexToDFA(regex string) (d *auto.DFA, err error) {
+	// The automata library crashes on some automata (e.g., re-indexing a chain of more than 64 states, as for a{64}).
+	defer func() {
+		if r := recover(); r != nil {
+			d, err = nil, fmt.Errorf("cannot build an automaton for %s: %v", regex, r)
+		}
+	}()
+
 	n, err := nfa.Parse(regex)
 	if err != nil {
 		return nil, err
 	}
 
-	d := n.ToDFA().Minimize().EliminateDeadStates().ReindexStates()
+	d = n.ToDFA().Minimize().EliminateDeadStates().ReindexStates()
 
 	return d, nil
 }
